@@ -85,6 +85,9 @@ pub enum Variant {
     /// read-modify-write (and a failing compare_exchange) reads the store that is last in
     /// modification order among the stores generated so far (what loom does, defects D12/D15)
     Rc11RmwNewest,
+    /// RC11 plus a total order of the SeqCst fences inside happens-before, used only to
+    /// *attribute* known findings of C04 (defect D11)
+    Rc11ScFenceHb,
 }
 
 pub fn supported(p: &Program) -> bool {
@@ -637,89 +640,142 @@ fn check(p: &Program, s: &XSt, _variant: Variant) -> (bool, bool) {
     // a release *store* itself must be the head when there is no fence: [rel] applies to the head
     // event (store/RMW) or to the fence; `a1` = [rel];([F];sb)? handles both since for the
     // no-fence case it is the identity on release events.
-    let hb = closure(&union(&union(&sb, &asw), &sw), n);
-    // coherence: irreflexive(hb ; eco?)
-    if !irreflexive(&hb, n) {
-        return (false, false);
-    }
-    let hbeco = compose(&hb, &eco, n);
-    if !irreflexive(&hbeco, n) {
-        return (false, false);
-    }
-    // SC axiom
-    if m_sc | m_fsc != 0 {
-        let mut sb_neq = [0u32; MAXE];
-        for i in 0..n {
-            let mut x = sb[i];
-            while x != 0 {
-                let j = x.trailing_zeros() as usize;
-                x &= x - 1;
-                if evs[i].loc == NOLOC || evs[j].loc == NOLOC || evs[i].loc != evs[j].loc {
-                    sb_neq[i] |= 1 << j;
+    // loom turns the execution order of SeqCst fences into happens-before (defect D11). The
+    // attribution variant adds a total order of the SeqCst fences to hb, for every such order;
+    // the other variants add nothing.
+    let fsc: Vec<usize> = (0..n).filter(|&i| m_fsc & (1 << i) != 0).collect();
+    let mut extras: Vec<Rel> = vec![];
+    if _variant == Variant::Rc11ScFenceHb && fsc.len() >= 2 && fsc.len() <= 5 {
+        let mut perm: Vec<usize> = fsc.clone();
+        // all permutations (Heap's algorithm, iterative)
+        let k = perm.len();
+        let mut c = vec![0usize; k];
+        let mut push = |perm: &Vec<usize>, extras: &mut Vec<Rel>| {
+            let mut r = [0u32; MAXE];
+            for a in 0..perm.len() {
+                for b in a + 1..perm.len() {
+                    r[perm[a]] |= 1 << perm[b];
                 }
             }
+            extras.push(r);
+        };
+        push(&perm, &mut extras);
+        let mut i = 0;
+        while i < k {
+            if c[i] < i {
+                if i % 2 == 0 {
+                    perm.swap(0, i);
+                } else {
+                    perm.swap(c[i], i);
+                }
+                push(&perm, &mut extras);
+                c[i] += 1;
+                i = 0;
+            } else {
+                c[i] = 0;
+                i += 1;
+            }
         }
-        let mut hb_loc = [0u32; MAXE];
-        for i in 0..n {
-            let mut x = hb[i];
-            while x != 0 {
-                let j = x.trailing_zeros() as usize;
-                x &= x - 1;
-                if evs[i].loc != NOLOC && evs[i].loc == evs[j].loc {
-                    hb_loc[i] |= 1 << j;
+    } else {
+        extras.push([0u32; MAXE]);
+    }
+    let mut any_consistent = false;
+    // the attribution variant reports a race only if it survives *every* fence order (loom
+    // follows the one order it happens to execute; the question is whether some order hides it)
+    let mut any_race = false;
+    let mut all_race = true;
+    for extra in &extras {
+        let hb = closure(&union(&union(&sb, &asw), &union(&sw, extra)), n);
+        // coherence: irreflexive(hb ; eco?)
+        if !irreflexive(&hb, n) {
+            continue;
+        }
+        let hbeco = compose(&hb, &eco, n);
+        if !irreflexive(&hbeco, n) {
+            continue;
+        }
+        // SC axiom
+        if m_sc | m_fsc != 0 {
+            let mut sb_neq = [0u32; MAXE];
+            for i in 0..n {
+                let mut x = sb[i];
+                while x != 0 {
+                    let j = x.trailing_zeros() as usize;
+                    x &= x - 1;
+                    if evs[i].loc == NOLOC || evs[j].loc == NOLOC || evs[i].loc != evs[j].loc {
+                        sb_neq[i] |= 1 << j;
+                    }
                 }
             }
-        }
-        let sbhbsb = compose(&compose(&sb_neq, &hb, n), &sb_neq, n);
-        let scb = union(&union(&union(&sb, &sbhbsb), &union(&hb_loc, &mo)), &rb);
-        let hbq = opt(&hb, n);
-        // left = [Esc] ∪ [Fsc];hb?      right = [Esc] ∪ hb?;[Fsc]
-        let mut left = [0u32; MAXE];
-        let mut right = [0u32; MAXE];
-        for i in 0..n {
-            if m_sc & (1 << i) != 0 {
-                left[i] |= 1 << i;
-                right[i] |= 1 << i;
+            let mut hb_loc = [0u32; MAXE];
+            for i in 0..n {
+                let mut x = hb[i];
+                while x != 0 {
+                    let j = x.trailing_zeros() as usize;
+                    x &= x - 1;
+                    if evs[i].loc != NOLOC && evs[i].loc == evs[j].loc {
+                        hb_loc[i] |= 1 << j;
+                    }
+                }
             }
-            if m_fsc & (1 << i) != 0 {
-                left[i] |= hbq[i];
+            let sbhbsb = compose(&compose(&sb_neq, &hb, n), &sb_neq, n);
+            let scb = union(&union(&union(&sb, &sbhbsb), &union(&hb_loc, &mo)), &rb);
+            let hbq = opt(&hb, n);
+            // left = [Esc] ∪ [Fsc];hb?      right = [Esc] ∪ hb?;[Fsc]
+            let mut left = [0u32; MAXE];
+            let mut right = [0u32; MAXE];
+            for i in 0..n {
+                if m_sc & (1 << i) != 0 {
+                    left[i] |= 1 << i;
+                    right[i] |= 1 << i;
+                }
+                if m_fsc & (1 << i) != 0 {
+                    left[i] |= hbq[i];
+                }
+                right[i] |= hbq[i] & m_fsc;
             }
-            right[i] |= hbq[i] & m_fsc;
-        }
-        let psc_base = compose(&compose(&left, &scb, n), &right, n);
-        let hbecohb = compose(&compose(&hb, &eco, n), &hb, n);
-        let psc_f = restrict(&union(&hb, &hbecohb), m_fsc, m_fsc, n);
-        let psc = closure(&union(&psc_base, &psc_f), n);
-        if !irreflexive(&psc, n) {
-            return (false, false);
-        }
-    }
-    // races
-    let mut race = false;
-    for i in 0..n {
-        for j in i + 1..n {
-            let (a, b) = (&evs[i], &evs[j]);
-            if a.t == b.t || a.t == INIT_T || b.t == INIT_T || a.loc != b.loc || a.loc == NOLOC {
+            let psc_base = compose(&compose(&left, &scb, n), &right, n);
+            let hbecohb = compose(&compose(&hb, &eco, n), &hb, n);
+            let psc_f = restrict(&union(&hb, &hbecohb), m_fsc, m_fsc, n);
+            let psc = closure(&union(&psc_base, &psc_f), n);
+            if !irreflexive(&psc, n) {
                 continue;
             }
-            let na_a = matches!(a.k, EK::NR | EK::NW);
-            let na_b = matches!(b.k, EK::NR | EK::NW);
-            if !na_a && !na_b {
-                continue;
-            }
-            let conflict = |x: &Ev, y: &Ev| -> bool {
-                // x is non-atomic
-                match x.k {
-                    EK::NW => true,
-                    EK::NR => matches!(y.k, EK::W | EK::U | EK::NW),
-                    _ => false,
+        }
+        // races
+        let mut race = false;
+        for i in 0..n {
+            for j in i + 1..n {
+                let (a, b) = (&evs[i], &evs[j]);
+                if a.t == b.t || a.t == INIT_T || b.t == INIT_T || a.loc != b.loc || a.loc == NOLOC {
+                    continue;
                 }
-            };
-            let c = (na_a && conflict(a, b)) || (na_b && conflict(b, a));
-            if c && hb[i] & (1 << j) == 0 && hb[j] & (1 << i) == 0 {
-                race = true;
+                let na_a = matches!(a.k, EK::NR | EK::NW);
+                let na_b = matches!(b.k, EK::NR | EK::NW);
+                if !na_a && !na_b {
+                    continue;
+                }
+                let conflict = |x: &Ev, y: &Ev| -> bool {
+                    // x is non-atomic
+                    match x.k {
+                        EK::NW => true,
+                        EK::NR => matches!(y.k, EK::W | EK::U | EK::NW),
+                        _ => false,
+                    }
+                };
+                let c = (na_a && conflict(a, b)) || (na_b && conflict(b, a));
+                if c && hb[i] & (1 << j) == 0 && hb[j] & (1 << i) == 0 {
+                    race = true;
+                }
             }
         }
+        any_consistent = true;
+        any_race |= race;
+        all_race &= race;
     }
-    (true, race)
+    if _variant == Variant::Rc11ScFenceHb {
+        (any_consistent, any_consistent && all_race)
+    } else {
+        (any_consistent, any_race)
+    }
 }
